@@ -3,7 +3,7 @@
     and no unlocked load overlaps a save (the two known findings are exactly the excluded
     classes). *)
 From Coq Require Import List Bool Arith Lia.
-From CM Require Import Issuance.Model Issuance.Proofs Issuance.Invariants Issuance.NoReissueTL Issuance.AgreeTL Issuance.Takeover.
+From CM Require Import Issuance.Model Issuance.Proofs Issuance.Invariants Issuance.NoReissueTL Issuance.AgreeTL0 Issuance.Takeover.
 Import ListNotations.
 
 Definition pres (st : skey -> option value) (n : nat) (j : kind) : Prop := st (SK n j) <> None.
